@@ -15,6 +15,12 @@ if ROUND == '1':
     SRC = '/tmp/seed_%s/out'
     NAME = '%s_%d'
     LOGPREFIX = 'out/patch'
+elif ROUND == '4':
+    PAIRS = [('/tmp/seed4_batch.sh', '/tmp/seedrun4.log'), ('/tmp/seed4_batch2.sh', '/tmp/seedrun4b.log'), ('/tmp/seed4_batch3.sh', '/tmp/seedrun4c.log')]
+    CONF = '/tmp/confirm_seeds4.log'
+    SRC = '/tmp/seedout4_%s'
+    NAME = '%s_r4_%d'
+    LOGPREFIX = 'seedout4_'
 elif ROUND == '3':
     PAIRS = [('/tmp/seed3_batch.sh', '/tmp/seedrun3.log'), ('/tmp/seed3_batch2.sh', '/tmp/seedrun3b.log'), ('/tmp/seed3_batch3.sh', '/tmp/seedrun3c.log')]
     CONF = '/tmp/confirm_seeds3.log'
@@ -47,7 +53,7 @@ def main():
                     break
                 l = lines[i]
                 i += 1
-                m = re.match(r'\S*patch(\d)\.diff (C\d+) (\S+) \((\d+)s\) ?(.*)', l)
+                m = re.match(r'\S*patch(\d)\.diff (C\d+) (\S+(?:\(exit \d+\))?) \((\d+)s\) ?(.*)', l)
                 if not m or int(m.group(1)) != k or m.group(2) != c:
                     print('log/script mismatch at', p, k, c, l[:80])
                     continue
